@@ -21,5 +21,7 @@ def gen (_ : Nat) : List String :=
   -- first contacts of different exporters at the same moment (template systems per address and port, sampling systems per address)
   (([2, 3].flatMap fun n => (plans n).map fun p => (n, p)).flatMap fun (n, p) =>
     ["tplx", "ratex"].flatMap fun kind =>
-      ["race " ++ kind ++ " " ++ toString n ++ " " ++ ",".intercalate (p.map Ev.str), "expect res ok lost=[]"])
+      ["race " ++ kind ++ " " ++ toString n ++ " " ++ ",".intercalate (p.map Ev.str), "expect res ok lost=[]"]) ++
+  -- several workers announcing for one KNOWN exporter at the same moment, unscheduled, on the real stores
+  ["race tplstress 300 -", "expect res ok lost=[]", "race ratestress 300 -", "expect res ok lost=[]"]
 end Goflow.Gen.C16
